@@ -1,5 +1,5 @@
 """C03 Empty, length and allowed-character guards hold for every field type."""
-from contracts import fields as F, ranges as R
+from contracts import fields as F, ranges as R, structure as ST
 
 PROPERTY = "C03"
 TITLE = "Empty, length and allowed-character guards hold for every field type"
@@ -10,4 +10,4 @@ EXPLANATION = ""
 LEVEL_TEXT = "Deductive proof of AbstractFieldFormat.validated and its guards against an abstract validated_value (all field types at once)."
 LEVEL_NOTE = "Trusts the pyvc encoding (cross-checked natively each run), z3/cvc5, A-STR (str.strip axiom, audited)."
 TECHNIQUE = "contract-based deductive verification: VCs generated from the ast of the real functions, discharged by z3/cvc5"
-UNITS = [F.unit_validated(), F.unit_validate_characters(), F.unit_validate_empty(), F.unit_validate_length(), R.unit_range_validate()]
+UNITS = [ST.unit_field_class_structure(), F.unit_validated(), F.unit_validate_characters(), F.unit_validate_empty(), F.unit_validate_length(), R.unit_range_validate()]
